@@ -409,12 +409,16 @@ template <class I>
 constexpr auto sat_inputs()
 {
     struct T {
-        std::array<I, 40> v {};
+        std::array<I, 256> v {};
         std::size_t n = 0;
         constexpr void add(I x) { v[n++] = x; }
     } t;
     if constexpr (sizeof(I) == 1) {
-        for (int x : MI_B8) { t.add((I)x); } // reinterpreted for unsigned char (two's complement)
+#ifdef VH_THOROUGH
+        for (int x : MI_U8) { t.add((I)x); } // every 8-bit value: all 65536 pairs
+#else
+        for (int x : MI_B8) { t.add((I)x); } // boundary values, reinterpreted for unsigned char (two's complement)
+#endif
     } else {
         using L = std::numeric_limits<I>;
         long const c[] = {0, 1, 2, -1, -2, 100, 255, 256, 257, -255, -256, 181, 182, -181, 16383, 16384};
@@ -748,7 +752,11 @@ constexpr unsigned lcg(unsigned& s)
     #ifndef VH_STD
 template <int Which>
 struct Kernel {
+#ifdef VH_THOROUGH
+    static constexpr std::size_t N = 400;
+#else
     static constexpr std::size_t N = 48;
+#endif
     static constexpr bool has_ct   = true;
     static void head(std::string& o)
     {
@@ -846,7 +854,11 @@ constexpr int DAYS[] = {-719468, -719467, -693596, -141428, -141427, -36525, -25
                         10957, 10956, 11323, 19358, 19417, 19418, 19723, 19782, 19783, 19784, 47540, 47541, 2932896, 2932897};
 struct Chrono_civil {
     static constexpr std::size_t ND = sizeof(DAYS) / sizeof(DAYS[0]);
-    static constexpr std::size_t N  = ND + 400;
+#ifdef VH_THOROUGH
+    static constexpr std::size_t N = ND + 6000;
+#else
+    static constexpr std::size_t N = ND + 400;
+#endif
     static constexpr bool has_ct    = true;
     static constexpr int day(std::size_t i) { return i < ND ? DAYS[i] : (int)(i - ND) * 1461 / 4 - 60000 + (int)((i * 7919) % 97); }
     static void head(std::string& o) { o += "\"fam\":\"chrono\",\"fn\":\"civil\""; }
